@@ -424,7 +424,11 @@ def r7_end_to_end(rep, src, tier):
               ('a block followed by editor settings', full + [B, 'Local variables:', 'mode: debian-changelog', 'End:']),
               ('a block followed by a vim line', full + [B, 'vim: set ts=4:']), ('a block followed by an old-format entry', full + [B, 'Old Changelog:', '  free text']),
               ('a block followed by comments', full + [B, '# comment', '/* more */']), ('no blank line between two blocks', full + block(H2, 'complete')),
-              ('a change line after the trailer', full + [C]), ('two trailers', full + [TRAILERS['complete']])]
+              ('a change line after the trailer', full + [C]), ('two trailers', full + [TRAILERS['complete']]),
+              # (blocks whose stored change lines are exactly [''], [] and ['', ''])
+              ('one blank line between heading and trailer', [H1, B, TRAILERS['complete']]), ('the trailer right after the heading', [H1, TRAILERS['complete']]),
+              ('two blank lines between heading and trailer', [H1, B, B, TRAILERS['complete']]),
+              ('one blank line between heading and trailer, then a complete block', [H1, B, TRAILERS['complete'], B] + block(H2, 'complete'))]
 
     from .changelogmodel import interpret_text
     bad = {'total': None, 'strict': None, 'normal': None}
